@@ -101,6 +101,7 @@ class SchemaGen:
         self.ifaces = {}      # name -> dict(impl=[...], fields=[(name, args_text, type_text)])
         self.objects = {}     # name -> dict(impl, fields)
         self.unions = {}
+        self.iface_field_names = set()
         self.n = 0
 
     # ---------------------------------------------------------------- helpers
@@ -142,7 +143,7 @@ class SchemaGen:
         r = self.r
         nullable = not ty.endswith("!")
         base = ty[:-1] if ty.endswith("!") else ty
-        if nullable and r.random() < 0.08:
+        if nullable and (r.random() < 0.08 or depth > 5):
             return "null", "null", False
         if base.startswith("["):
             inner = base[1:-1]
@@ -185,7 +186,7 @@ class SchemaGen:
             entries, nc = [], False
             for (fname, fty, has_default) in fields:
                 required = fty.endswith("!") and not has_default
-                if required or r.random() < 0.6:
+                if required or r.random() < (0.6 if depth < 3 else 0.0):
                     p, s, n = self.default_for(fty, depth + 1)
                     entries.append((fname, p, s))
                     nc = nc or n
@@ -264,12 +265,16 @@ class SchemaGen:
         name, args, ty, _ = f
         return f"  {self.desc(0.3)}{name}{args}: {ty}{self.deprecated(0.25)}"
 
-    def own_fields(self, taken, lo=1, hi=4):
+    def own_fields(self, taken, lo=1, hi=4, iface=False):
         out = []
         for _ in range(self.r.randint(lo, hi)):
             name = self.r.choice(["id", "name", "items", "node", "count", "f", "g", "value", "other", "more"])
-            if name in taken:
+            # a field name belongs to at most one interface, so that two interfaces implemented by the same
+            # type never disagree about a field
+            if name in taken or (iface and name in self.iface_field_names):
                 continue
+            if iface:
+                self.iface_field_names.add(name)
             taken.add(name)
             out.append(self.field(name))
         return out
@@ -355,13 +360,17 @@ class SchemaGen:
             if impls:
                 o.features.add("interface-implements-interface")
             inh, taken = self.inherited(impls)
-            own = self.own_fields(taken, 1 if not inh else 0, 3)
+            own = self.own_fields(taken, 1 if not inh else 0, 3, iface=True)
+            if not inh and not own:
+                own = [self.field(f"only{idx}")]
             self.ifaces[n] = {"impl": impls, "fields": inh + own}
         for n in obj_names + roots:
             pick = [i for i in iface_names if self.chance(0.35)]
             impls = self.closed_impls(pick)
             inh, taken = self.inherited(impls)
             own = self.own_fields(taken, 1 if not inh else 0, 4)
+            if not inh and not own:
+                own = [self.field("solo")]
             self.objects[n] = {"impl": impls, "fields": inh + own}
         for n in union_names:
             self.unions[n] = r.sample(obj_names + roots, r.randint(1, min(3, len(obj_names + roots))))
@@ -504,13 +513,19 @@ class QueryGen:
                 key = r.choice(["k", "z", "name", "x_" + name])
                 alias = key + ": "
                 self.features.add("alias")
-            if key in keys:
+            repeated = key in keys
+            if repeated:
                 if keys[key] != (name, args):
                     continue
                 self.features.add("merged-field")
             keys[key] = (name, args)
             sub = ""
-            if res is not None:
+            if res is not None and repeated:
+                # the sub-selections of the two fields are merged: keep the second one free of conflicts
+                leaf = r.choice([f for f in META[res] if f[2] is None])[0]
+                sub = f" {{ m_{leaf}: {leaf} __typename }}"
+                self.features.add("merged-subselections")
+            elif res is not None:
                 sub = " " + self.selset(res, nl, depth + 1)
             items.append(f"{alias}{name}{args}{self.directive()}{sub}")
         if r.random() < 0.2:
